@@ -216,21 +216,29 @@ async def async_main():
             
     elif args.command == "tcp_client":
         # Create TCP client passing callbacks in constructor
+        dump_pgns = parse_pgn_list(args.dump_pgns)
         if args.type == Type.EBYTE:
             logger.info("Using EByteNmea2000Gateway with server: %s, port: %d", args.server, args.port)
-            client = EByteNmea2000Gateway(args.server, args.port)
+            client = EByteNmea2000Gateway(args.server, args.port, dump_to_file=args.dump_file, dump_pgns=dump_pgns)
         elif args.type == Type.ACTISENSE:
             logger.info("Using ActisenseNmea2000Gateway with server: %s, port: %d", args.server, args.port)
-            client = ActisenseNmea2000Gateway(args.server, args.port)            
+            client = ActisenseNmea2000Gateway(args.server, args.port, dump_to_file=args.dump_file, dump_pgns=dump_pgns)
         elif args.type == Type.YACHT_DEVICES:
             logger.info("Using YachtDevicesNmea2000Gateway with server: %s, port: %d", args.server, args.port)
-            client = YachtDevicesNmea2000Gateway(args.server, args.port)            
+            client = YachtDevicesNmea2000Gateway(args.server, args.port, dump_to_file=args.dump_file, dump_pgns=dump_pgns)
         await interactive_client(client)
     elif args.command == "usb_client":
         # Create USB client passing callbacks in constructor
         logger.info("Using WaveShareNmea2000Gateway with port: %s", args.port)
-        client = WaveShareNmea2000Gateway(port=args.port, dump_to_file=args.dump_file, dump_pgns=args.dump_pgns)
+        client = WaveShareNmea2000Gateway(port=args.port, dump_to_file=args.dump_file, dump_pgns=parse_pgn_list(args.dump_pgns))
         await interactive_client(client)
+
+def parse_pgn_list(value: str | None) -> list[int | str]:
+    """The --dump_pgns option: comma separated PGN numbers and/or PGN ids."""
+    if not value:
+        return []
+    items = [item.strip() for item in value.split(",")]
+    return [int(item) if item.isdigit() else item for item in items if item]
 
 def main():
     try:
